@@ -396,7 +396,7 @@ def network(profile="exact", max_ops=6, dtypes=("int8", "int8", "int8", "uint8",
         nb = NB(draw, st, profile)
         dt = draw(st.sampled_from(list(dtypes)))
         dim = st.one_of(st.integers(1, 8), st.integers(1, 24), st.sampled_from([1, 2, 7, 8, 13, 16, 17]))
-        if big and draw(st.integers(0, 2)) == 0:
+        if profile == "cascade" or (big and draw(st.integers(0, 2)) == 0):
             h, w = draw(st.sampled_from([32, 48, 64, 96, 128])), draw(st.sampled_from([16, 24, 32, 64]))
             c = draw(st.sampled_from([1, 3, 4, 8, 16]))
         else:
@@ -408,6 +408,9 @@ def network(profile="exact", max_ops=6, dtypes=("int8", "int8", "int8", "uint8",
         history = [x]
         n_ops = draw(st.integers(1, max_ops))
         menu = list(EXACT_OPS)
+        if profile == "cascade":  # chains of spatial operators on tall planes: what the scheduler cascades and stripes
+            menu = ["conv", "conv", "conv", "dw", "dw", "maxpool", "add_const", "relu", "add", "avgpool_valid"]
+            n_ops = draw(st.integers(2, max_ops))
         if profile == "wide":
             menu += APPROX_TAIL_OPS + CPU_OPS
         for i in range(n_ops):
